@@ -15,6 +15,7 @@ type verifConnRecorder struct {
 	status      int
 	wire        http.Header
 	body        []byte
+	flushedAt   []int // bytes on the wire at each flush
 }
 
 func (r *verifConnRecorder) Header() http.Header { return r.hdr }
@@ -40,6 +41,7 @@ func (r *verifConnRecorder) Flush() {
 	if !r.wroteHeader {
 		r.WriteHeader(http.StatusOK)
 	}
+	r.flushedAt = append(r.flushedAt, len(r.body))
 }
 
 var verifLastPanic interface{}
@@ -131,6 +133,7 @@ func VerifStack(features, k, interim int) {
 			verifrt.Assert(ok, "a proxied exchange delivers exactly the backend's status (502 when the backend is unreachable)")
 			if kind == 0 {
 				verifrt.Assert(string(rec.body) == "ok", "a proxied exchange delivers exactly the backend's body: nothing dropped, nothing appended")
+				verifrt.Assert(len(rec.flushedAt) > 0 && rec.flushedAt[0] == 1, "bytes a streaming backend has flushed reach the client while the response is still open (through the whole handler stack)")
 			} else {
 				verifrt.Assert(len(rec.body) == 0, "an unreachable backend is answered with the proxy's bare 502")
 			}
